@@ -545,20 +545,20 @@ Definition fs_read (fsx : option json) : Z :=
   else 0%Z.
 
 Lemma read_el_shape_00 ex ty fsx :
-  read_element sw root (JObj ([(T "exp", ex); (T "type", ty)] ++ fs_field fsx))
+  read_element sw root (JObj ((T "exp", ex) :: (T "type", ty) :: fs_field fsx))
   = read_el_tail (Ok ptr_null) ex ty (fs_read fsx) (Ok []).
 Proof. destruct fsx; reflexivity. Qed.
 Lemma read_el_shape_01 ex ty fsx tm :
-  read_element sw root (JObj ([(T "exp", ex); (T "type", ty)] ++ fs_field fsx ++ [(T "temp", JObj tm)]))
+  read_element sw root (JObj ((T "exp", ex) :: (T "type", ty) :: fs_field fsx ++ [(T "temp", JObj tm)]))
   = read_el_tail (Ok ptr_null) ex ty (fs_read fsx) (jobject_to_hashmap_values tm).
 Proof. destruct fsx; reflexivity. Qed.
 Lemma read_el_shape_10 cps ij ex ty fsx :
-  read_element sw root (JObj ([(T "cPath", JStr cps); (T "idx", ij); (T "exp", ex); (T "type", ty)] ++ fs_field fsx))
+  read_element sw root (JObj ((T "cPath", JStr cps) :: (T "idx", ij) :: (T "exp", ex) :: (T "type", ty) :: fs_field fsx))
   = read_el_tail (read_el_ptr cps ij) ex ty (fs_read fsx) (Ok []).
 Proof. destruct fsx; reflexivity. Qed.
 Lemma read_el_shape_11 cps ij ex ty fsx tm :
-  read_element sw root (JObj ([(T "cPath", JStr cps); (T "idx", ij); (T "exp", ex); (T "type", ty)]
-                              ++ fs_field fsx ++ [(T "temp", JObj tm)]))
+  read_element sw root (JObj ((T "cPath", JStr cps) :: (T "idx", ij) :: (T "exp", ex) :: (T "type", ty)
+                              :: fs_field fsx ++ [(T "temp", JObj tm)]))
   = read_el_tail (read_el_ptr cps ij) ex ty (fs_read fsx) (jobject_to_hashmap_values tm).
 Proof. destruct fsx; reflexivity. Qed.
 
@@ -596,21 +596,15 @@ Proof.
     assert (Hptr : read_el_ptr (path_string pa) (JInt pi) = Ok (mkPtr (Some cp) pi)).
     { unfold read_el_ptr. rewrite Hpos, Hcont. rewrite (in_i32_as_i64 pi Hi). cbn. now rewrite wrap32_id. }
     destruct temps as [|t0 temps'].
-    + eexists. split; [reflexivity|]. cbn [is_nil]. rewrite app_nil_r.
-      change ([(T "cPath", JStr (path_string pa)); (T "idx", JInt pi)] ++ [(T "exp", JBool inexpr); (T "type", JInt (pushpop_ord ty))] ++ fs_field (fs_written fstart))
-        with ([(T "cPath", JStr (path_string pa)); (T "idx", JInt pi); (T "exp", JBool inexpr); (T "type", JInt (pushpop_ord ty))] ++ fs_field (fs_written fstart)).
+    + eexists. split; [reflexivity|]. cbn [is_nil]. rewrite app_nil_r. cbn [app].
       rewrite read_el_shape_10, Hptr. destruct ty; reflexivity.
-    + eexists. split; [reflexivity|]. cbn [is_nil]. rewrite Hwd.
-      change ([(T "cPath", JStr (path_string pa)); (T "idx", JInt pi)] ++ [(T "exp", JBool inexpr); (T "type", JInt (pushpop_ord ty))] ++ fs_field (fs_written fstart) ++ [(T "temp", JObj tm)])
-        with ([(T "cPath", JStr (path_string pa)); (T "idx", JInt pi); (T "exp", JBool inexpr); (T "type", JInt (pushpop_ord ty))] ++ fs_field (fs_written fstart) ++ [(T "temp", JObj tm)]).
+    + eexists. split; [reflexivity|]. cbn [is_nil]. rewrite Hwd. cbn [app].
       rewrite read_el_shape_11, Hptr, Hrd. destruct ty; reflexivity.
   - cbn [bind]. unfold jfield.
     destruct temps as [|t0 temps'].
-    + eexists. split; [reflexivity|]. cbn [is_nil app]. rewrite app_nil_r.
+    + eexists. split; [reflexivity|]. cbn [is_nil]. rewrite app_nil_r. cbn [app].
       rewrite read_el_shape_00. destruct ty; reflexivity.
     + eexists. split; [reflexivity|]. cbn [is_nil]. rewrite Hwd. cbn [app].
-      change ((T "exp", JBool inexpr) :: (T "type", JInt (pushpop_ord ty)) :: fs_field (fs_written fstart) ++ [(T "temp", JObj tm)])
-        with ([(T "exp", JBool inexpr); (T "type", JInt (pushpop_ord ty))] ++ fs_field (fs_written fstart) ++ [(T "temp", JObj tm)]).
       rewrite read_el_shape_01, Hrd. destruct ty; reflexivity.
 Qed.
 
@@ -628,12 +622,16 @@ Lemma read_thread_shape_0 js ti :
   read_thread sw root [(T "callstack", JArr js); (T "threadIndex", ti)]
   = (do i <- or_bad "Invalid thread index" (j_as_i64 ti);
      do els <- read_elements sw root js;
+     do _ <- (if ssw_empty_thread_rejected sw && is_nil els
+              then bad_json "Thread without call stack elements" else Ok tt);
      Ok (mkThread els ptr_null (Z.to_N (to_u64 i)))).
 Proof. reflexivity. Qed.
 Lemma read_thread_shape_1 js ti p :
   read_thread sw root [(T "callstack", JArr js); (T "threadIndex", ti); (T "previousContentObject", JStr p)]
   = (do i <- or_bad "Invalid thread index" (j_as_i64 ti);
      do els <- read_elements sw root js;
+     do _ <- (if ssw_empty_thread_rejected sw && is_nil els
+              then bad_json "Thread without call stack elements" else Ok tt);
      do prev <- pointer_at_path root (path_parse (Some p));
      Ok (mkThread els prev (Z.to_N (to_u64 i)))).
 Proof. reflexivity. Qed.
@@ -641,19 +639,23 @@ Proof. reflexivity. Qed.
 Lemma thread_roundtrip_lemma t : wf_thread_b root t = true ->
   exists o, write_thread panics sw root t = Ok (JObj o) /\ read_thread sw root o = Ok (norm_thread sw root t).
 Proof.
-  unfold wf_thread_b. intros H. apply andb_true_iff in H as [H Hi]. apply andb_true_iff in H as [Hels Hprev].
+  unfold wf_thread_b. intros H. apply andb_true_iff in H as [H Hi]. apply andb_true_iff in H as [H Hprev].
+  apply andb_true_iff in H as [Hne Hels].
   destruct t as [els prev idx]. cbn [th_cs th_prev th_index] in *.
   destruct (elements_roundtrip els Hels) as (js & Hws & Hrs).
+  assert (Hne' : (if ssw_empty_thread_rejected sw && is_nil (map (norm_element sw) els)
+                  then bad_json "Thread without call stack elements" else Ok tt) = Ok tt).
+  { destruct els; [discriminate|]. cbn [map is_nil]. now rewrite andb_false_r. }
   unfold write_thread, norm_thread, norm_prev. cbn [th_cs th_prev th_index]. rewrite Hws. cbn [bind].
   unfold prev_ok_b in Hprev. unfold reload_prev in *.
   destruct (ptr_is_null prev) eqn:En.
   - cbn [bind app]. eexists. split; [reflexivity|]. unfold jfield. rewrite read_thread_shape_0.
-    rewrite (N_as_i64 idx Hi). cbn [or_bad bind]. rewrite Hrs. cbn [bind]. now rewrite N_to_u64_id.
+    rewrite (N_as_i64 idx Hi). cbn [or_bad bind]. rewrite Hrs. cbn [bind]. rewrite Hne'. cbn [bind]. now rewrite N_to_u64_id.
   - destruct (ptr_resolve root prev) as [pos|] eqn:Er; [|discriminate].
     cbn [ssite_res bind]. destruct (get_path root pos) as [pa| |] eqn:Eg; try discriminate.
     cbn [bind] in *. destruct (pointer_at_path root (path_parse (Some (path_string pa)))) as [q| |] eqn:Ep; try discriminate.
     eexists. split; [reflexivity|]. unfold jfield. cbn [app]. rewrite read_thread_shape_1.
-    rewrite (N_as_i64 idx Hi). cbn [or_bad bind]. rewrite Hrs. cbn [bind]. rewrite Ep. cbn [bind].
+    rewrite (N_as_i64 idx Hi). cbn [or_bad bind]. rewrite Hrs. cbn [bind]. rewrite Hne'. cbn [bind]. rewrite Ep. cbn [bind].
     now rewrite N_to_u64_id.
 Qed.
 
@@ -675,7 +677,9 @@ Lemma load_callstack_shape cs0 ts tc :
   = (let '(r, l) := read_threads_into panics sw root ts [] in
      let cs1 := (cs0 <| cs_threads := [] |>) <| cs_threads := l |> in
      match r with
-     | Ok _ => match ssite_res panics S_cs_counter_i64 (j_as_i64 tc) with
+     | Ok _ => if ssw_no_threads_rejected sw && is_nil l
+               then (Err BadJson (T "Call stack without threads"), cs1) else
+               match ssite_res panics S_cs_counter_i64 (j_as_i64 tc) with
                | Ok n => (Ok tt, cs1 <| cs_counter := Z.to_N (to_u64 n) |>)
                | Err k m => (Err k m, cs1)
                | Panic s => (Panic s, cs1)
@@ -689,10 +693,13 @@ Lemma callstack_roundtrip cs : wf_callstack_b root cs = true ->
   exists o, write_callstack panics sw root cs = Ok (JObj o)
             /\ forall cs0, load_callstack panics sw root cs0 o = (Ok tt, norm_callstack sw root cs).
 Proof.
-  unfold wf_callstack_b. intros H. apply andb_true_iff in H as [Hts Hc].
+  unfold wf_callstack_b. intros H. apply andb_true_iff in H as [H Hc]. apply andb_true_iff in H as [Hne Hts].
   destruct (threads_roundtrip (cs_threads cs) Hts) as (js & Hws & Hrs).
   unfold write_callstack. rewrite Hws. cbn [bind]. eexists. split; [reflexivity|].
   intros cs0. unfold jfield. rewrite load_callstack_shape, Hrs. cbn [app].
+  assert (Hne' : ssw_no_threads_rejected sw && is_nil (map (norm_thread sw root) (cs_threads cs)) = false).
+  { destruct (cs_threads cs); [discriminate|]. cbn [map is_nil]. apply andb_false_r. }
+  rewrite Hne'.
   rewrite (N_as_i64 _ Hc). cbn [ssite_res]. rewrite N_to_u64_id by assumption.
   destruct cs0; reflexivity.
 Qed.
@@ -933,7 +940,7 @@ Lemma load_choice_threads_roundtrip cs jcto choices :
   (forall c, In c choices -> cs_thread_with_index cs (choice_tidx c) = None ->
      exists th o, ch_thread c = Some th /\ obind jcto (jget_t (show_N (choice_tidx c))) = Some (JObj o)
                   /\ read_thread sw root o = Ok (norm_thread sw root th)) ->
-  load_flow_choice_threads panics root (norm_callstack sw root cs) jcto (map loaded_choice choices)
+  load_flow_choice_threads panics sw root (norm_callstack sw root cs) jcto (map loaded_choice choices)
   = Ok (map (norm_choice sw root (norm_callstack sw root cs)) choices).
 Proof.
   intros Hwf Hspec. unfold load_flow_choice_threads. rewrite (mapM_map_ok _ _ (norm_choice sw root (norm_callstack sw root cs))); [reflexivity|].
@@ -955,7 +962,7 @@ Definition flow_read_tail (name : text) (jcs jout jch : json) (jcto : option jso
   do choices <- read_choices panics sw S_flow_choice_downcast ca;
   do cso <- ssite_res panics S_flow_cs_obj (j_as_obj jcs);
   do cs <- load_callstack_res panics sw root cso;
-  do choices' <- load_flow_choice_threads panics root cs jcto choices;
+  do choices' <- load_flow_choice_threads panics sw root cs jcto choices;
   Ok (mkFlow name cs out choices' false).
 
 Lemma flow_shape_0 name jcs jout jch :
@@ -1689,8 +1696,8 @@ Proof. destruct m; reflexivity. Qed.
 Lemma write_element_norm e : write_element sw root (norm_element sw e) = write_element sw root e.
 Proof.
   destruct e as [[pc pi] inexpr temps ty evalh fstart]. unfold write_element, norm_element, norm_ptr, ptr_is_null.
-  cbn [el_ptr el_inexpr el_temps el_type ptr_c ptr_i]. rewrite is_nil_norm_valmap, write_dictionary_norm.
-  destruct pc; reflexivity.
+  cbn [el_ptr el_inexpr el_temps el_type el_fstart ptr_c ptr_i]. rewrite is_nil_norm_valmap, write_dictionary_norm.
+  destruct (ssw_fstart_saved sw); destruct pc; reflexivity.
 Qed.
 
 Lemma mapM_ext_in {A B} (f g : A -> Res B) l : (forall x, In x l -> f x = g x) -> mapM f l = mapM g l.
@@ -1725,7 +1732,7 @@ Qed.
 Lemma write_callstack_norm cs : wf_callstack_b root cs = true ->
   write_callstack panics sw root (norm_callstack sw root cs) = write_callstack panics sw root cs.
 Proof.
-  unfold wf_callstack_b. intros H. apply andb_true_iff in H as [Hts _].
+  unfold wf_callstack_b. intros H. apply andb_true_iff in H as [H _]. apply andb_true_iff in H as [_ Hts].
   unfold write_callstack, norm_callstack. cbn [cs_threads cs_counter]. rewrite mapM_map.
   rewrite (mapM_ext_in _ (write_thread panics sw root)); [reflexivity|].
   intros t Hin. apply write_thread_norm. eapply forallb_In; eassumption.
